@@ -8,8 +8,8 @@
 (*   functions  fA, fB (aligned), gO (low bit set), MARK (= DQ_FCT_MARK),  *)
 (*              NULL                                                       *)
 (*   arguments  a1.. (aligned), o1.. (low bit set), MARK, NULL             *)
-(* The value operators (IsBit, SetBit, ClearBit, Enc) are shared with the  *)
-(* concurrent protocol specification (module Defer).                       *)
+(* The value operators (IsBit, SetBit, ClearBit, Enc: module DeferVal) are *)
+(* shared with the concurrent protocol specification (module Defer).       *)
 (*                                                                         *)
 (* Behaviours: any sequence of at most MaxLen calls defer_rcu(f, p) with   *)
 (* (f, p) drawn from FAlpha \X PAlpha, interleaved with arbitrary drains   *)
@@ -22,43 +22,25 @@
 (* the previous drain -- same function, same argument, same order, once    *)
 (* each -- and stops exactly at head; the code's assertions hold.          *)
 (***************************************************************************)
-EXTENDS Naturals, Sequences, FiniteSets, TLC
+EXTENDS DeferVal, Naturals, FiniteSets, TLC
 
 CONSTANTS Q,          \* DEFER_QUEUE_SIZE (power of two)
-          MaxLen,     \* bound on the number of defer_rcu calls in a behaviour (2Q+2)
+          MaxLen,     \* bound on the number of defer_rcu calls in a behaviour (2Q+2 asked for by the design);
+                      \* 0 = no bound: the state space is finite anyway, so ALL call sequences of ANY length are covered
           Wrap,       \* modulus of the head/tail counters
           H0,         \* set of initial values of head = tail
           FAlpha,     \* function representatives explored
-          PAlpha      \* argument representatives explored
-
-MARK == "MARK"
-NULL == "NULL"
-AlignedF == {"fA", "fB"}
-OddF == {"gO"}
-AlignedP == {"a1", "a2", "a3", "a4", "a5", "a6", "a7", "a8", "a9"}
-OddP == {"o1", "o2", "o3", "o4", "o5", "o6", "o7", "o8", "o9"}
-
-\* DQ_SET_FCT_BIT on an aligned, non-marker function pointer (the only case in which the encoder uses it)
-SetBit(f) == f \o "|1"
-Tagged == {SetBit(f) : f \in AlignedF \cup {NULL}}
-\* DQ_IS_FCT_BIT(x)
-IsBit(x) == x \in OddF \cup OddP \cup Tagged
-\* DQ_CLEAR_FCT_BIT(x)
-ClearBit(x) == IF x \in Tagged THEN CHOOSE f \in AlignedF \cup {NULL} : SetBit(f) = x ELSE x \o "&~1"
-
-\* Slots written by _defer_rcu(f, p) when the last encoded function is lfi (l.347-362); last_fct_in becomes f
-Enc(lfi, f, p) ==
-  IF lfi # f \/ IsBit(p) \/ p = MARK
-  THEN IF IsBit(f) \/ f = MARK THEN <<MARK, f, p>> ELSE <<SetBit(f), p>>
-  ELSE <<p>>
+          PAlpha,     \* argument representatives explored
+          Junk        \* TRUE: slots behind tail are forgotten ("JUNK") when tail advances -- dead memory that a
+                      \* correct decoder never reads (reading it would break CodecOK all the same); keeps Q = 8 finite
+                      \* enough.  FALSE: stale slot contents are kept, exactly as in the real ring.
 
 \* ------------------------------------------------------------------------
 VARIABLES ring, head, tail, lfi, lfo,
           pend,      \* ghost: calls queued and not yet invoked, in order
-          n,         \* ghost: number of defer_rcu calls so far
-          ok,        \* ghost: FALSE once a drain misbehaved or an assertion of the code failed
-          last       \* ghost: what the last step did (read by DeferCodecGen / the conformance check)
-cvars == <<ring, head, tail, lfi, lfo, pend, n, ok, last>>
+          n,         \* ghost: number of defer_rcu calls so far (stays 0 when MaxLen = 0: unbounded)
+          ok         \* ghost: FALSE once a drain misbehaved or an assertion of the code failed
+cvars == <<ring, head, tail, lfi, lfo, pend, n, ok>>
 
 Sub(a, b) == (a + Wrap - b) % Wrap          \* a - b on unsigned counters
 Inc(a, k) == (a + k) % Wrap
@@ -74,8 +56,12 @@ Dec(r, i, hd, lo, calls, fuel) ==
        ELSE Dec(r, Inc(i, 1), hd, lo, Append(calls, <<lo, p1>>), fuel - 1)
 
 Drain == Dec(ring, tail, head, lfo, <<>>, Q + 1)
+\* slots [from, to) are dead once tail has moved to `to`
+Forget(r, from, to) == IF ~Junk \/ Sub(to, from) > Q THEN r
+                       ELSE [k \in 0..(Q - 1) |-> IF \E j \in 0..(Sub(to, from) - 1) : Inc(from, j) % Q = k THEN "JUNK" ELSE r[k]]
 DrainOK(d) == d.i = head /\ d.calls = pend
 
+\* what the conformance check compares with the real ring after every call (see DeferCodecGen)
 Image(r, h, t, li, lo) == [hm |-> h % Q, n |-> Sub(h, t), lfi |-> li, lfo |-> lo,
                            live |-> [j \in 1..Sub(h, t) |-> r[Inc(t, j - 1) % Q]]]
 
@@ -83,27 +69,26 @@ Init == /\ ring = [k \in 0..(Q - 1) |-> "JUNK"]
         /\ head \in H0 /\ tail = head
         /\ lfi = NULL /\ lfo = NULL          \* zero-initialised TLS
         /\ pend = <<>> /\ n = 0 /\ ok = TRUE
-        /\ last = [op |-> "case", cb |-> <<>>, img |-> Image(ring, head, head, NULL, NULL)]
 
 \* _defer_rcu(f, p)
 Defer(f, p) ==
-  /\ n < MaxLen
+  /\ (MaxLen = 0 \/ n < MaxLen)
   /\ LET full == Sub(head, tail) >= Q - 2
          d    == Drain
          t1   == IF full THEN d.i ELSE tail
          lo1  == IF full THEN d.lfo ELSE lfo
          pd1  == IF full THEN <<>> ELSE pend
          e    == Enc(lfi, f, p)
+         r0   == IF full THEN Forget(ring, tail, d.i) ELSE ring
          r1   == [k \in 0..(Q - 1) |-> IF \E j \in 1..Len(e) : Inc(head, j - 1) % Q = k
-                                         THEN e[CHOOSE j \in 1..Len(e) : Inc(head, j - 1) % Q = k] ELSE ring[k]]
+                                         THEN e[CHOOSE j \in 1..Len(e) : Inc(head, j - 1) % Q = k] ELSE r0[k]]
          h1   == Inc(head, Len(e))
      IN /\ ring' = r1 /\ head' = h1 /\ tail' = t1 /\ lfi' = f /\ lfo' = lo1
         /\ pend' = Append(pd1, <<f, p>>)
-        /\ n' = n + 1
+        /\ n' = IF MaxLen = 0 THEN 0 ELSE n + 1
         /\ ok' = (ok /\ Sub(head, tail) <= Q                         \* urcu_posix_assert(head - tail <= DEFER_QUEUE_SIZE)
                      /\ (full => (DrainOK(d) /\ Sub(head, t1) = 0))  \* urcu_posix_assert(head - tail == 0) after the flush
                      /\ Sub(h1, t1) <= Q)
-        /\ last' = [op |-> "d", f |-> f, p |-> p, cb |-> IF full THEN d.calls ELSE <<>>, img |-> Image(r1, h1, t1, f, lo1)]
 
 \* rcu_defer_barrier_thread() / the reclaimer draining this queue up to the current head
 Barrier ==
@@ -111,8 +96,8 @@ Barrier ==
   /\ LET d == Drain IN
      /\ tail' = d.i /\ lfo' = d.lfo /\ pend' = <<>>
      /\ ok' = (ok /\ DrainOK(d))
-     /\ last' = [op |-> "b", cb |-> d.calls, img |-> Image(ring, head, d.i, lfi, d.lfo)]
-  /\ UNCHANGED <<ring, head, lfi, n>>
+     /\ ring' = Forget(ring, tail, d.i)
+  /\ UNCHANGED <<head, lfi, n>>
 
 Next == (\E f \in FAlpha, p \in PAlpha : Defer(f, p)) \/ Barrier
 CSpec == Init /\ [][Next]_cvars
